@@ -1,21 +1,23 @@
 #!/bin/bash
 # usage: benignpar.sh <out-file> <patch>...   : runs every property's rules on each behaviour-preserving patch, each
-# in its own scratch worktree of /repo (removed afterwards), 6 at a time.
+# in its own scratch worktree of /repo (removed afterwards), 6 at a time (BENIGN_PAR).
 out="$1"; shift
 one() {
-  patch="$1"; id=$(echo "$patch" | md5sum | cut -c1-8); wt=/tmp/wt_benign_$id
+  patch="$(readlink -f "$1")"; label=$(echo "$patch" | awk -F/ '{print $(NF-2)"/"$(NF-1)"/"$NF}'); id=$(echo "$patch" | md5sum | cut -c1-8); wt=/tmp/wt_benign_$id
   git -C /repo worktree remove --force $wt >/dev/null 2>&1
   git -C /repo worktree add --detach $wt HEAD >/dev/null 2>&1 || { echo "$patch: worktree failed"; return; }
-  if ! git -C $wt apply "$patch" 2>/dev/null; then echo "$(basename $(dirname $patch))/$(basename $patch): DOES NOT APPLY"; git -C /repo worktree remove --force $wt >/dev/null 2>&1; return; fi
+  if ! git -C $wt apply "$patch" 2>/dev/null; then echo "$label: DOES NOT APPLY"; git -C /repo worktree remove --force $wt >/dev/null 2>&1; return; fi
   bad=""; detail=""
-  for p in C01 C02 C03 C04 C05 C06 C07 C08 C09 C10 C11 C12 C13 C14 C15 C16 C17 C18 C19 C20; do
-    o=$(cd /verif && VCHECK_NO_MUTANTS=1 bin/vcheck -repo $wt -prop "$p" -no-evidence 2>&1); rc=$?
-    if [ $rc -ne 0 ]; then bad="$bad $p(rc=$rc)"; detail="$detail$(echo "$o" | grep -E "violated|UNDECIDED|undecided|CHECKER-ERROR|FLOOR|panic" | head -5 | cut -c1-380 | sed "s|^|    [$p] |")
-"; fi
-  done
-  echo "$(basename $(dirname $patch))/$(basename $patch): ${bad:- all 20 checks exit 0}
+  o=$(cd /verif && VCHECK_NO_MUTANTS=1 ${VCHECK_BIN:-bin/vcheck} -repo $wt -prop all -no-evidence 2>&1); rc=$?
+  if [ $rc -ne 0 ]; then
+    bad=" $(echo "$o" | grep -E "^== C[0-9]+ rc=[12]" | sed -E 's/^== (C[0-9]+) rc=([0-9])/\1(rc=\2)/' | tr '\n' ' ')"
+    [ "$bad" = " " ] && bad=" checker-failed(rc=$rc)"
+    detail="$(echo "$o" | grep -E "violated|UNDECIDED|undecided|CHECKER-ERROR|FLOOR|panic" | head -12 | cut -c1-380 | sed "s|^|    |")
+"
+  fi
+  echo "$label: ${bad:- all 20 checks exit 0}
 $detail" | sed '/^$/d'
   git -C /repo worktree remove --force $wt >/dev/null 2>&1; rm -rf $wt
 }
 export -f one
-printf "%s\n" "$@" | xargs -P 6 -I{} bash -c 'one {}' > "$out" 2>&1
+printf "%s\n" "$@" | xargs -P ${BENIGN_PAR:-6} -I{} bash -c 'one {}' > "$out" 2>&1
